@@ -2,3 +2,4 @@ import TinsModel.Props.Limits.C16
 #print axioms Tins.Props.Limits.C16.limits_found_C16
 #print axioms Tins.Props.Limits.C16.limits_agree_ipv4AddressSize
 #print axioms Tins.Props.Limits.C16.limits_agree_bufAddressSizes
+#print axioms Tins.Props.Limits.C16.limits_agree_ipv6ToStringBufferSize
